@@ -60,6 +60,7 @@ MUTANTS = {
                 "        if inp.ndim == 3:\n            inp += 0.0\n            inp[0, 0, 0] = inp[0, 0, 0] + 1e-9\n"},
     ],
     "C09": [
+        {"name": "revert_fix_euler_flat_angles", "kind": "revert", "commit": "99e177d"},
         {"name": "constructor_pads_orientation_at_front", "kind": "sub", "file": BG,
          "old": "            oriQ = np.pad(oriQ, ((0, len_pos - len_ori), (0, 0)), \"edge\")\n",
          "new": "            oriQ = np.pad(oriQ, ((len_pos - len_ori, 0), (0, 0)), \"edge\")\n"},
@@ -145,8 +146,13 @@ MUTANTS = {
          "new": "            if obj._parent is not None and not isinstance(obj, Collection):\n                obj._parent.remove(obj)\n            obj._parent = self\n"},
     ],
     "C18": [
+        {"name": "revert_fix_tree_kwargs_last", "kind": "revert", "commit": "0c17cf5"},
         {"name": "revert_fix_empty_label", "kind": "revert", "commit": "0197573"},
-        {"name": "revert_fix_parent_last", "kind": "revert", "commit": "3c55826"},
+        # 3c55826 (parent assigned last) cannot be reverse-applied any more since 0c17cf5 rewrote the same lines
+        {"name": "copy_assigns_parent_first", "kind": "sub", "file": BG,
+         "old": "        style_kwargs = {}\n        tree_kwargs = (",
+         "new": "        if \"parent\" in kwargs:\n            obj_copy.parent = kwargs[\"parent\"]\n"
+                "        style_kwargs = {}\n        tree_kwargs = ("},
         {"name": "revert_fix_copy_finally", "kind": "revert", "commit": "395226b"},
         {"name": "shallow_copy_for_leaves", "kind": "sub", "file": BG,
          "old": "        else:\n            obj_copy = deepcopy(self)\n",
@@ -216,6 +222,9 @@ MUTANTS = {
          "old": "            new_kwargs[keys[0]] = _merge_dicts(new_kwargs[keys[0]], val)\n",
          "new": "            new_kwargs[keys[0]] = dict(val) if len(keys) == 1 else _merge_dicts(new_kwargs[keys[0]], val)\n"},
         {"name": "revert_fix_deep_merge", "kind": "revert", "commit": "082e3ec"},
+        {"name": "revert_fix_style_input_copied", "kind": "revert", "commit": "219997f"},
+        {"name": "revert_fix_style_object_assignment", "kind": "revert", "commit": "1bec7ef"},
+        {"name": "revert_fix_trace_objects_copied", "kind": "revert", "commit": "b241992"},
         {"name": "copy_shares_style_with_original", "kind": "sub", "file": BG,
          "old": "            obj_copy.style.label = label\n",
          "new": "            obj_copy.style.label = label\n            obj_copy.style.path = self.style.path\n"},
